@@ -168,9 +168,10 @@ TEXT["C16"] = {
              "never a failure (every_routed_request_answered, routes_are_modelled by `decide` over the generated table); a path matching no pattern of any method, also after httprouter's "
              "normalisations, is answered 404 (unrouted_is_404); per storage-backed route, existing data gives 200/error=false with exactly the stored data and an unknown cluster/group/topic gives "
              "404/error=true (topic_list, topic_detail, topic_consumers, consumer_list, consumer_detail), status routes give 404 with status NOTFOUND and error=false (consumer_status); config routes "
-             "give 404 for a single-segment name that is not a configured module and 200 otherwise (unknown_config_is_404, known_config_is_200, via isSet_child); reads are pure except that a consumer "
-             "lookup drops an already expired group (gets_are_pure, storage_lookup_only_drops_expired). Known findings, with witnesses: dotted names reach into viper paths and get 200 (D15, "
-             "dotted_name_witness), DELETE answers 200 for unknown clusters/groups (D18, delete_unknown_witness). Tie: ~7700 requests per quick run over every route x odd parameters x methods "
+             "give 404 for EVERY name that is not a configured module of that kind and 200 otherwise, for every configuration (unknown_config_is_404, unknown_notifier_is_404, known_config_is_200 — "
+             "full strength since the repair of D15/D21: the handlers look the name up among the kind's keys instead of testing viper.IsSet on a key built from it; dotted_name_is_404); reads are pure except that a consumer "
+             "lookup drops an already expired group (gets_are_pure, storage_lookup_only_drops_expired). Repaired: dotted names reached into viper paths and got 200 (D15), list-index names such as c0.servers.-1 made viper index out of "
+             "range inside the handler (D21, found by the thorough tier). Known finding, with witness: DELETE answers 200 for unknown clusters/groups (D18, delete_unknown_witness). Tie: ~7700 requests per quick run over every route x odd parameters x methods "
              "against the real router wired to real storage and evaluator; status code, content type, envelope and headers compared."),
     "note": ("Trusted: Lean kernel + 3 standard axioms; httprouter as a contract (for an unmatched path ending in '/' both redirect and 404 are admitted: it depends on the radix tree); net/http, TLS, "
              "listeners not modelled; the harness decodes JSON with its own structs. The tie is sampled."),
@@ -209,7 +210,9 @@ TEXT["C19"] = {
     "technique": "Lean 4: the configuration phase as ordered validation chains, proved equivalent to the declarative catalogue of requirements, + recover-handler/Start theorems; panic-site list REGENERATED from the source and pinned; + differential correspondence of the real configuration phase and the real Start on generated valid/invalid configurations",
     "text": ("Proof: Props/C19.lean proves configure_passes_iff_valid — the model of newCoordinators + every Configure (50 validation sites in execution order) passes iff the declarative catalogue "
              "`Valid` holds (server lists, referenced clusters/profiles, class names, one storage/evaluator module, legacy keys, patterns, templates, URLs/addresses, TLS files) — and from it "
-             "invalid_refused (Start returns 1, nothing started), valid_accepted, never_crashes, refusal_names_a_violation, for every configuration; original_handler_crashed documents the defect "
+             "invalid_refused (Start returns 1, nothing started), valid_accepted, never_crashes, refusal_names_a_violation, for every configuration; the coordinators take their modules in Go map order, "
+             "so refusal_independent_of_module_order / refusal_site_is_possible show that acceptance does not depend on that order and characterise the set of sites a refusal may name (the tie accepts "
+             "any of them: a thorough-tier false alarm on a configuration with two invalid clusters was corrected this way); original_handler_crashed documents the defect "
              "that was repaired (the recover handler re-panicked: every invalid configuration crashed Start); catalogue_is_the_sources pins the 70 panic sites regenerated from the Configure "
              "methods by go/ast, so an added, removed or reworded validation breaks an obligation. Tie: ~1000 generated configurations per quick run through the real configuration phase and the "
              "real Start; accepted/refused, which validation fired and Start's result compared with the model."),
